@@ -644,7 +644,7 @@ func bsAfterNext(b *bitstream) bool {
 	case bitcodeNone:
 		return false
 	}
-	return b.state == bssOnValue
+	return b.state == bssOnValue && b.code <= bitcodeAnnotation
 }
 
 // bsOn: the stream is positioned on a non-null value of the given kind.
